@@ -24,6 +24,9 @@ import (
 	"path/filepath"
 	"sort"
 	"strings"
+	"syscall"
+	"time"
+	"unsafe"
 
 	"github.com/elastic/go-seccomp-bpf/arch"
 	"github.com/elastic/go-seccomp-bpf/cmd/seccomp-profiler/disasm"
@@ -100,11 +103,94 @@ func (d *dsm) realOn(a *arch.Info, fail string, content []byte) ([]disasm.Syscal
 			return nil, nil, "harness: " + err.Error()
 		}
 		return d.real(a, d.file)
+	case "fifo":
+		// the same text delivered through a named pipe (what `profiler <(go tool objdump …)` or a /dev/fd path
+		// amounts to): stat reports size 0 and no seeking; the result must be that of the regular file
+		return d.viaFifo(a, content)
 	case "open":
 		return d.real(a, filepath.Join(d.dir, "does-not-exist"))
+	case "procmem":
+		// a /proc file: stat reports size 0, os.Open succeeds, the first read fails with EIO
+		return d.real(a, "/proc/self/mem")
 	default: // a directory: os.Open succeeds, the first read fails
 		return d.real(a, d.dir)
 	}
+}
+
+func (d *dsm) viaFifo(a *arch.Info, content []byte) ([]disasm.Syscall, error, interface{}) {
+	if len(content) == 0 {
+		// nothing to wait for: an empty pipe whose writer is gone cannot be told from one that was never opened
+		if err := os.WriteFile(d.file, content, 0o644); err != nil {
+			return nil, nil, "harness: " + err.Error()
+		}
+		return d.real(a, d.file)
+	}
+	p := filepath.Join(d.dir, "listing.fifo")
+	os.Remove(p)
+	if err := syscall.Mkfifo(p, 0o600); err != nil {
+		return nil, nil, "harness: mkfifo: " + err.Error()
+	}
+	w, err := os.OpenFile(p, os.O_RDWR, 0) // never blocks, and keeps the reader's open from blocking
+	if err != nil {
+		return nil, nil, "harness: " + err.Error()
+	}
+	stop := make(chan struct{})
+	done := make(chan struct{})
+	go func() {
+		defer close(done)
+		defer w.Close()
+		if _, err := w.Write(content); err != nil {
+			return
+		}
+		// the reader sees the end of the text when the last writer is gone; leave only after the reader has taken
+		// everything (then it has opened the pipe), or when the extraction has returned without doing so
+		rc, err := w.SyscallConn()
+		if err != nil {
+			return
+		}
+		for {
+			select {
+			case <-stop:
+				return
+			default:
+			}
+			pending := 1
+			rc.Control(func(fd uintptr) {
+				var n int32
+				if _, _, e := syscall.Syscall(syscall.SYS_IOCTL, fd, 0x541B /* FIONREAD */, uintptr(unsafe.Pointer(&n))); e == 0 {
+					pending = int(n)
+				}
+			})
+			if pending == 0 {
+				return
+			}
+			time.Sleep(50 * time.Microsecond)
+		}
+	}()
+	resCh := make(chan struct{})
+	var res []disasm.Syscall
+	var rerr error
+	var pan interface{}
+	go func() {
+		res, rerr, pan = d.real(a, p)
+		close(resCh)
+	}()
+	select {
+	case <-resCh:
+	case <-time.After(30 * time.Second):
+		close(stop)
+		w.Close()
+		<-done
+		// unblock a reader stuck in open(2) or read(2), then report
+		if k, err := os.OpenFile(p, os.O_WRONLY|syscall.O_NONBLOCK, 0); err == nil {
+			k.Close()
+		}
+		return nil, nil, "harness: extraction from a named pipe did not finish within 30 s"
+	}
+	close(stop)
+	w.Close() // a reader that went away early leaves the writer blocked on a full pipe
+	<-done
+	return res, rerr, pan
 }
 
 func hexOrDash(b []byte) string {
@@ -176,6 +262,9 @@ func (d *dsm) clauseCheck(a *arch.Info, fail string, content []byte, res []disas
 		return fmt.Sprintf("extraction panics: %v", pan)
 	}
 	lines, readable := scanLines(content)
+	if fail == "fifo" {
+		fail = "-"
+	}
 	if fail != "-" {
 		readable = false
 	}
@@ -274,6 +363,19 @@ func (c *disCase) request() string {
 	return fmt.Sprintf("D %s %s %s", c.arch, c.fail, hexOrDash(c.content))
 }
 
+// modelRequest: the model knows "-" (readable), "open" and "read fails after n lines"; how the text is delivered
+// (regular file or pipe) and which unreadable file it is are matters of the harness.
+func (c *disCase) modelRequest() string {
+	fail := c.fail
+	switch fail {
+	case "fifo":
+		fail = "-"
+	case "procmem":
+		fail = "0"
+	}
+	return fmt.Sprintf("D %s %s %s", c.arch, fail, hexOrDash(c.content))
+}
+
 func shortReq(req string) string {
 	if len(req) > 400 {
 		h := sha256.Sum256([]byte(req))
@@ -290,7 +392,7 @@ func (d *dsm) one(id string, c *disCase, cuts int, rng *rand.Rand) bool {
 	req := c.request()
 	res, err, pan := d.realOn(a, c.fail, c.content)
 	goReply := renderDis(res, err, pan)
-	modelReply, merr := r.model.Ask(req)
+	modelReply, merr := r.model.Ask(c.modelRequest())
 	if merr != nil {
 		r.sum.Error = merr.Error()
 		return true
@@ -923,6 +1025,11 @@ func (r *runner) disasmStream(rng *rand.Rand) error {
 			return
 		}
 		done++
+		if c.fail == "-" && done%6 == 5 {
+			// one text in six arrives through a named pipe instead of a regular file
+			c.fail = "fifo"
+			c.tags = append(c.tags, "delivery:named-pipe")
+		}
 		if d.one(id, c, cuts, rng) || r.sum.Error != "" {
 			stop = true
 		}
@@ -1022,8 +1129,8 @@ func (r *runner) disasmStream(rng *rand.Rand) error {
 		case k < 89:
 			g.tag("family:unreadable")
 			lines := g.listing(2, 2, 0)
-			fail := []string{"0", "open"}[rng.Intn(2)]
-			g.tag("unreadable:" + map[string]string{"0": "directory", "open": "missing-path"}[fail])
+			fail := []string{"0", "open", "procmem"}[rng.Intn(3)]
+			g.tag("unreadable:" + map[string]string{"0": "directory", "open": "missing-path", "procmem": "proc-file-EIO"}[fail])
 			emit(id, &disCase{arch: archName, fail: fail, content: joinLines(rng, lines, g.tags), tags: tagList(g.tags), nontriv: true}, 0)
 		case k < 97:
 			g.tag("family:empty-or-blank")
